@@ -24,6 +24,9 @@ type gen struct {
 	uniq int
 	tags []string
 	pre  []N // statements for the top of the program (an error object created there, thrown elsewhere)
+	// noArgErr: the catch probes of this program read e.message (script-made errors only), so no
+	// argument may raise an interpreter error (whose message text is not specified)
+	noArgErr bool
 }
 
 func (g *gen) pick(n int) int    { return g.r.Intn(n) }
@@ -61,6 +64,100 @@ var ErrKinds = []string{"unres", "callnf", "propundef", "newnf", "instof", "arrl
 // CtxKinds lists the nesting contexts.
 var CtxKinds = []string{"fdecl", "fexpr", "nfe", "mdot", "midx", "ctor", "bound", "call", "apply", "foreach", "deval", "ieval", "getter", "setter", "valueof", "iife", "callres", "hostcb"}
 
+// argument expressions that each record a position of their own (member access, call, operator,
+// assignment, nested construction): the call site of the enclosing call / new expression must
+// still be the one recorded when the callee is entered.  The globals ao, ax, ay, AD are declared
+// at the top of every program.
+func (g *gen) argExpr() N {
+	switch g.pick(11) {
+	case 0:
+		return c01.Dot(id("ao"), "p")
+	case 1:
+		return c01.Idx(id("ao"), str("p"))
+	case 2:
+		return c01.Call(id("z"))
+	case 3:
+		return c01.Bin("+", id("ax"), id("ay"))
+	case 4:
+		return c01.Asg("=", id("ax"), num(1+g.pick(4)))
+	case 5:
+		return c01.New(id("AD"))
+	case 6:
+		return c01.Dot(c01.Dot(id("ao"), "q"), "r")
+	case 7:
+		return c01.Call(c01.Dot(id("z"), "call"), c01.Null())
+	case 8:
+		return c01.Bin("<", num(1), c01.Dot(id("ao"), "p"))
+	case 9:
+		return c01.New(id("AD"), c01.Dot(id("ao"), "p"))
+	default:
+		return num(g.pick(5))
+	}
+}
+
+func (g *gen) args() []N {
+	if g.chance(45) {
+		return nil
+	}
+	g.tag("args")
+	out := []N{}
+	for n := 1 + g.pick(2); n > 0; n-- {
+		if g.chance(3) && !g.noArgErr {
+			g.tag("argerr")
+			out = append(out, id(g.fresh("nope"))) // the error is raised inside the argument
+		} else {
+			out = append(out, g.argExpr())
+		}
+	}
+	return out
+}
+
+// errValue: what name / message are overwritten with
+func (g *gen) errValue() N {
+	switch g.pick(9) {
+	case 0, 1:
+		return c01.Undefined()
+	case 2:
+		return c01.Null()
+	case 3:
+		return num([]int{0, 5, -1}[g.pick(3)])
+	case 4:
+		return str("")
+	case 5:
+		return c01.Bool(g.chance(50))
+	default:
+		return str([]string{"Foo", "bar", "MyError", "x: y"}[g.pick(4)])
+	}
+}
+
+// modify returns a statement that changes what 15.11.4.4 reads from the error value e:
+// its own name / message, or those of its prototype or of Error.prototype, overwritten with a
+// value of every primitive type or deleted.
+func (g *gen) modify(e N) N {
+	ev := func() N { return id(ustr(e["n"])) }
+	proto := func() N { return c01.Call(c01.Dot(id("Object"), "getPrototypeOf"), ev()) }
+	errProto := func() N { return c01.Dot(id("Error"), "prototype") }
+	prop := []string{"name", "message"}[g.pick(2)]
+	switch g.pick(10) {
+	case 0, 1, 2:
+		return c01.Expr(c01.Asg("=", c01.Dot(ev(), prop), g.errValue()))
+	case 3:
+		return c01.Expr(c01.Un("delete", c01.Dot(ev(), prop)))
+	case 4:
+		return c01.Expr(c01.Asg("=", c01.Dot(proto(), prop), g.errValue()))
+	case 5:
+		return c01.Expr(c01.Un("delete", c01.Dot(proto(), prop)))
+	case 6:
+		return c01.Expr(c01.Asg("=", c01.Dot(errProto(), prop), g.errValue()))
+	case 7:
+		return c01.Expr(c01.Un("delete", c01.Dot(errProto(), prop)))
+	case 8:
+		return c01.Expr(c01.Asg("=", c01.Idx(ev(), str(prop)), c01.Undefined()))
+	default:
+		return c01.Expr(c01.Call(id("z")))
+	}
+}
+
 // errorConstruct returns statements (to be placed in one body) the last of which raises.
 func (g *gen) errorConstruct(kind string) []N {
 	g.tag("err:" + kind)
@@ -86,9 +183,9 @@ func (g *gen) errorConstruct(kind string) []N {
 		o, x := g.fresh("o"), g.fresh("x")
 		switch g.pick(6) {
 		case 0:
-			return []N{c01.Var(o, c01.Obj()), c01.Expr(c01.Call(c01.Dot(id(o), "m")))}
+			return []N{c01.Var(o, c01.Obj()), c01.Expr(c01.Call(c01.Dot(id(o), "m"), g.args()...))}
 		case 1:
-			return []N{c01.Var(x, num(5)), c01.Expr(c01.Call(id(x)))}
+			return []N{c01.Var(x, num(5)), c01.Expr(c01.Call(id(x), g.args()...))}
 		case 2:
 			return []N{c01.Var(o, c01.Obj()), c01.Expr(c01.Call(c01.Idx(id(o), str("m")), num(1)))}
 		case 3:
@@ -126,7 +223,7 @@ func (g *gen) errorConstruct(kind string) []N {
 		x, o := g.fresh("x"), g.fresh("o")
 		switch g.pick(3) {
 		case 0:
-			return []N{c01.Var(x, num(5)), c01.Expr(c01.New(id(x)))}
+			return []N{c01.Var(x, num(5)), c01.Expr(c01.New(id(x), g.args()...))}
 		case 1:
 			return []N{c01.Var(o, c01.Obj()), c01.Expr(c01.New(c01.Dot(id(o), "m"), num(1)))}
 		default:
@@ -201,7 +298,14 @@ func (g *gen) errorConstruct(kind string) []N {
 	case "thrown":
 		cls := errClasses[g.pick(len(errClasses))]
 		msgs := []string{"abc", "", "x: y", "msg with spaces"}
-		switch g.pick(10) {
+		switch g.pick(12) {
+		case 10:
+			// the message is computed by a position-recording argument expression
+			g.tag("args")
+			return []N{c01.Throw(c01.New(id(cls), c01.Bin("+", str("bad value: "), c01.Dot(id("ao"), "p"))))}
+		case 11:
+			g.tag("args")
+			return []N{c01.Throw(c01.New(id(cls), c01.Call(id("H"), str("m")), g.argExpr()))}
 		case 0, 1:
 			return []N{c01.Throw(c01.New(id(cls), str(msgs[g.pick(len(msgs))])))}
 		case 2:
@@ -220,6 +324,10 @@ func (g *gen) errorConstruct(kind string) []N {
 			out := []N{c01.Var(e, c01.New(id(cls), str(msgs[g.pick(len(msgs))])))}
 			g.tag("modified")
 			for k := 0; k < 1+g.pick(2); k++ {
+				if g.chance(60) {
+					out = append(out, g.modify(id(e)))
+					continue
+				}
 				switch g.pick(7) {
 				case 0:
 					out = append(out, c01.Expr(c01.Asg("=", c01.Dot(id(e), "name"), str([]string{"Foo", "", "MyError"}[g.pick(3)]))))
@@ -305,22 +413,26 @@ func (g *gen) context(kind string, body []N) (decls []N, inv N) {
 	f := g.fresh("f")
 	switch kind {
 	case "fdecl":
-		return []N{c01.FDecl(f, nil, body...)}, c01.Call(id(f))
+		return []N{c01.FDecl(f, nil, body...)}, c01.Call(id(f), g.args()...)
 	case "fexpr":
-		return []N{c01.Var(f, c01.Fn("", nil, body...))}, c01.Call(id(f))
+		return []N{c01.Var(f, c01.Fn("", nil, body...))}, c01.Call(id(f), g.args()...)
 	case "nfe":
-		return []N{c01.Var(f, c01.Fn(g.fresh("n"), nil, body...))}, c01.Call(id(f))
+		return []N{c01.Var(f, c01.Fn(g.fresh("n"), nil, body...))}, c01.Call(id(f), g.args()...)
 	case "mdot":
-		return []N{c01.Var(f, c01.Obj("m", c01.Fn("", nil, body...)))}, c01.Call(c01.Dot(id(f), "m"))
+		return []N{c01.Var(f, c01.Obj("m", c01.Fn("", nil, body...)))}, c01.Call(c01.Dot(id(f), "m"), g.args()...)
 	case "midx":
-		return []N{c01.Var(f, c01.Obj("m", c01.Fn(g.fresh("n"), nil, body...)))}, c01.Call(c01.Idx(id(f), str("m")))
+		return []N{c01.Var(f, c01.Obj("m", c01.Fn(g.fresh("n"), nil, body...)))}, c01.Call(c01.Idx(id(f), str("m")), g.args()...)
 	case "ctor":
-		return []N{c01.FDecl(f, nil, body...)}, c01.New(id(f))
+		if g.chance(50) {
+			// the constructor is reached through a member expression: new o.C(args)
+			return []N{c01.Var(f, c01.Obj("C", c01.Fn(g.fresh("C"), nil, body...)))}, c01.New(c01.Dot(id(f), "C"), g.args()...)
+		}
+		return []N{c01.FDecl(f, nil, body...)}, c01.New(id(f), g.args()...)
 	case "bound":
 		b := g.fresh("b")
-		return []N{c01.FDecl(f, nil, body...), c01.Var(b, c01.Call(c01.Dot(id(f), "bind"), c01.Null()))}, c01.Call(id(b))
+		return []N{c01.FDecl(f, nil, body...), c01.Var(b, c01.Call(c01.Dot(id(f), "bind"), c01.Null()))}, c01.Call(id(b), g.args()...)
 	case "call":
-		return []N{c01.FDecl(f, nil, body...)}, c01.Call(c01.Dot(id(f), "call"), c01.Null())
+		return []N{c01.FDecl(f, nil, body...)}, c01.Call(c01.Dot(id(f), "call"), append([]N{c01.Null()}, g.args()...)...)
 	case "apply":
 		return []N{c01.FDecl(f, nil, body...)}, c01.Call(c01.Dot(id(f), "apply"), c01.Null(), c01.Arr())
 	case "foreach":
@@ -386,6 +498,7 @@ func (g *gen) scenario(i int) Scenario {
 	}
 	depth := g.pick(5)
 	prim, scripted := kind == "throwprim", kind == "thrown"
+	g.noArgErr = scripted
 	body := append(g.filler(true), g.errorConstruct(kind)...)
 	catchLevel := -1
 	if g.chance(55) {
@@ -394,6 +507,15 @@ func (g *gen) scenario(i int) Scenario {
 	wrapCatch := func(stmts []N, inFn bool) []N {
 		g.tag("catch")
 		handler := g.probes(prim, scripted)
+		if !prim && g.chance(35) {
+			// the caught value (constructor-made or raised by the interpreter) is changed, then thrown again
+			g.tag("modify-rethrow")
+			for k := 0; k < 1+g.pick(2); k++ {
+				handler = append(handler, g.modify(id("e")))
+			}
+			handler = append(handler, c01.Throw(id("e")))
+			return []N{c01.Try(stmts, "e", handler, true, nil, false)}
+		}
 		switch g.pick(4) {
 		case 0:
 			g.tag("rethrow")
@@ -452,7 +574,9 @@ func (g *gen) scenario(i int) Scenario {
 			body = append(body, c01.Expr(c01.Call(id("z"))))
 		}
 	}
-	prog := append(append([]N{c01.FDecl("z", nil)}, g.pre...), body...)
+	head := []N{c01.FDecl("z", nil), c01.FDecl("AD", nil),
+		c01.Var("ao", c01.Obj("p", num(1), "q", c01.Obj("r", num(2)))), c01.Var("ax", num(1)), c01.Var("ay", num(2))}
+	prog := append(append(head, g.pre...), body...)
 	limits := []int{10, 10, 10, 0, 1, 2, 3, 4, 5, 6, 7, 8, 9, 11, 12, depth + 1, depth + 2, depth, 2, 1}
 	tl := limits[g.pick(len(limits))]
 	if tl < 0 {
